@@ -638,12 +638,24 @@ func runC09(c *Ctx) {
 						c.sample(fmt.Sprintf("%s [%s/%s] %s -> %d %s", kind, os.name, class, desc, resp.Status, resp.ErrCode()))
 					}
 				}
+				if !hostMode && c.NMism == 0 {
+					if bad, fp := c09PartNumbers(c, inst, canaryInst, &st); bad != "" {
+						c.mismatch(Mismatch{Kind: "spec", Backend: kind, Case: []string{"options=" + os.name + " state=" + class, "part uploads to the pending upload with every absurd part number"}, Impl: bad,
+							Spec: "a complete, well-formed answer; afterwards the server still answers", Finger: fp})
+					}
+				}
 				// drain: bring the store to the state "everything deleted" through legitimate requests
 				// (every version by id, every key, every pending upload) and look at it once more
 				if !hostMode {
 					if bad := c09Drain(c, inst, st); bad != "" {
 						c.mismatch(Mismatch{Kind: "spec", Backend: kind, Case: append([]string{"options=" + os.name + " state=" + class, "drain: delete every version by id, every key, abort every upload; then list and read"}, history...), Impl: bad,
 							Spec: "the emptied store still answers every request", Finger: "c09:drained:" + class})
+					}
+				}
+				if !hostMode && c.NMism == 0 {
+					if bad, fp := c09ForceDelete(c, inst, st); bad != "" {
+						c.mismatch(Mismatch{Kind: "spec", Backend: kind, Case: []string{"options=" + os.name + " state=" + class, "PUT two objects; DELETE bucket with x-minio-force-delete: true; list buckets; list the bucket; PUT/GET an object"}, Impl: bad,
+							Spec: "every request is answered; afterwards the server still answers", Finger: fp})
 					}
 				}
 				inst.Close()
@@ -929,4 +941,68 @@ func c09Class(rq impl.Req) string {
 		return "multi-delete"
 	}
 	return strings.ToLower(rq.Method)
+}
+
+// c09PartNumbers: a part upload to the real pending upload with every absurd part number (the
+// largest first): each is answered well-formedly and the upload stays usable.
+func c09PartNumbers(c *Ctx, inst, canary *impl.Instance, st *c09State) (string, string) {
+	if st.uploadID == "" {
+		return "", ""
+	}
+	nums := append([]string{"9223372036854775807", "-9223372036854775808", "10001", "10000"}, c09Ints...)
+	for i, pn := range nums {
+		q := url.Values{}
+		q.Set("uploadId", st.uploadID)
+		q.Set("partNumber", pn)
+		r := inst.Do(impl.Req{Method: "PUT", Path: "/" + impl.EscapePath(st.bucket) + "/mp/obj", Query: q.Encode(), Body: bytes.NewReader([]byte("part-x"))})
+		c.R.Evaluations++
+		if ok, why := c09Wellformed(c, "PUT", r); !ok {
+			fp := "c09:malformed-answer:part-number"
+			if strings.HasPrefix(why, "panic") {
+				fp = "c09:panic:part-number"
+			} else if why == "hang" {
+				fp = "c09:hang:part-number"
+			}
+			return "PUT ?partNumber=" + pn + " -> " + why, fp
+		}
+		c.hist(fmt.Sprintf("part-number-sweep:status:%d", r.Status))
+		if bad := c09Canary(c, canary, st, i); bad != "" {
+			return "after PUT ?partNumber=" + pn + ": " + bad, "c09:wedged:part-number"
+		}
+	}
+	return "", ""
+}
+
+// c09ForceDelete: the Minio force-delete extension on a bucket that holds objects, on every
+// backend: answered (whatever the backend's answer is), and the server keeps answering.
+func c09ForceDelete(c *Ctx, inst *impl.Instance, st c09State) (string, string) {
+	b := "/" + impl.EscapePath(st.bucket)
+	steps := []impl.Req{
+		{Method: "PUT", Path: b},
+		{Method: "PUT", Path: b + "/force/one", Body: bytes.NewReader([]byte("1"))},
+		{Method: "PUT", Path: b + "/force-two", Body: bytes.NewReader([]byte("2"))},
+		{Method: "DELETE", Path: b, Header: map[string]string{"x-minio-force-delete": "true"}},
+		{Method: "GET", Path: "/"},
+		{Method: "GET", Path: b},
+		{Method: "PUT", Path: b},
+		{Method: "PUT", Path: b + "/after", Body: bytes.NewReader([]byte("3"))},
+		{Method: "GET", Path: b + "/after"},
+		{Method: "DELETE", Path: b, Header: map[string]string{"x-minio-force-delete": "true"}},
+		{Method: "GET", Path: "/"},
+	}
+	for i, rq := range steps {
+		r := inst.Do(rq)
+		c.R.Evaluations++
+		if ok, why := c09Wellformed(c, rq.Method, r); !ok {
+			fp := "c09:malformed-answer:force-delete"
+			if strings.HasPrefix(why, "panic") {
+				fp = "c09:panic:force-delete"
+			} else if why == "hang" {
+				fp = "c09:hang:force-delete"
+			}
+			return fmt.Sprintf("step %d (%s %s) -> %s", i, rq.Method, rq.Path, why), fp
+		}
+		c.hist(fmt.Sprintf("force-delete-sweep:%s:status:%d", rq.Method, r.Status))
+	}
+	return "", ""
 }
